@@ -106,3 +106,22 @@ def mass_start_case(rng, n=None):
     steps = [{"sus": [], "asg": asg0}, {"sus": [], "asg": []}, {"sus": [], "asg": asg1}] + [{"sus": [], "asg": []} for _ in range(12)]
     return {"kind": "mix", "world": w, "pipelines": pipes, "steps": steps, "drain": 60, "_mass_start": n,
             "driver_seed": 0, "driver": {"steps": len(steps)}}
+
+
+def quiet_scan_case(rng, ticks=None):
+    """A quiet pool: a handful of long scans grow tick by tick for thousands of ticks and nothing exits - tens of
+    thousands of incremental memory updates in one pool without any of the re-summing that container exits,
+    kills or suspensions bring (periodic audits / resyncs of the running total would have to be exact here)."""
+    tps = rng.choice([50, 100, 200])
+    n = rng.choice([5, 7, 8, 11])
+    ticks = ticks or rng.choice([5000, 7000])
+    w = {"pools": 1, "cpus": 16, "ram": 10 ** 6, "tps": tps, "multi": True, "overcommit": rng.random() < 0.5}
+    pipes, asg = [], []
+    for i in range(n):
+        t_io = ticks - rng.randint(0, 400) - 37 * i               # staggered ends, all late
+        read = 20.0 * (t_io + 0.5) / tps
+        pipes.append({"pid": f"scan{i}", "prio": "BATCH_PIPELINE",
+                      "ops": [{"parents": [], "segs": [{"cpu": 3.5 / tps, "law": "const", "mem": None, "read": read}]}]})
+        asg.append({"pool": 0, "cpu": 1, "ram": read * 1.5 + 1.0, "ops": [[i, 0]]})
+    return {"kind": "mix", "world": w, "pipelines": pipes, "steps": [{"sus": [], "asg": asg}], "drain": ticks + 50,
+            "_quiet_scan": n * ticks, "driver_seed": 0, "driver": {"steps": 1}}
